@@ -283,8 +283,8 @@ func c05Alphabet(thorough bool) []vx.Op {
 	}
 	for f := 0; f < 2; f++ {
 		for p := range c05Payloads {
-			if f == 1 && !thorough && p != 0 {
-				continue
+			if f == 1 && (!thorough && p != 0 || len(c05Payloads[p]) == 0) {
+				continue // (the empty official payload is C04's subject: decoding zero containers)
 			}
 			a = append(a, vx.O("import", 0, int64(p), int64(f)), vx.O("import", 1, int64(p), int64(f)))
 		}
@@ -365,7 +365,7 @@ func TestVerif_C05(t *testing.T) {
 			}}
 			depth := c.Pick(3, 4)
 			if bi == 0 && kind == 0 {
-				depth = c.Pick(4, 5)
+				depth = 4
 			}
 			c.RunDFS(h, depth)
 			c.RunBFS(h, c.Pick(4, 6), c.Pick(60000, 400000))
